@@ -389,6 +389,13 @@ class Resolver(object):
                 # a name declared `global` anywhere is one of the module's own global variables, assigned or not
                 mb |= s.globals_
         self.module_bound = mb
+        # names some binding form actually assigns at module level (in the module itself, or in a scope that declares them global);
+        # a name that is only *declared* global is still the builtin of that name at run time
+        ma = set(self.module.bound)
+        for s in self.scopes:
+            if s.kind != 'module':
+                ma |= (s.globals_ & s.bound)
+        self.module_assigned = ma
         for s in self.scopes:
             for (node, slot, name, ctx) in s.occ:
                 key = self.resolve_in(s, name)
